@@ -603,6 +603,29 @@ def accept(R, RID='C01.accept'):
                                  sorted(d.text()[:30] for d in final)), func=q, node=t.ast,
                      construct='size rule %s' % U(t.ast)[:50])
     need(nt >= 1, 'FrameParser.parse: no size rule on the decoded length found')
+    # ... and they reject only illegal sizes: a control frame only above 125 bytes, any frame only from 2**63 on
+    from .common import path_conditions, interval_of
+    cons = [n for n in g.live_nodes() if n.kind == 'stmt' and isinstance(n.ast, ast.Assign) and isinstance(n.ast.value, ast.Call)
+            and any(t.kind == 'ctor' and t.cls in ('frame.Frame', 'frame.CompressedFrame')
+                    for t in R.types.call_targets(n.ast.value, g.ctx))]
+    fv = U(cons[0].ast.targets[0]) if cons else 'frame'
+    hdr = [n for n in g.live_nodes() if n.kind == 'stmt' and isinstance(n.ast, ast.Assign) and isinstance(n.ast.value, ast.Yield)
+           and isinstance(n.ast.targets[0], ast.Tuple) and len(n.ast.targets[0].elts) == 2]
+    need(hdr, 'FrameParser.parse: header read not found')
+    for rn in g.live_nodes():
+        if not (rn.kind == 'stmt' and isinstance(rn.ast, ast.Raise)):
+            continue
+        bad = []
+        for l in path_conditions(R, g, rd, hdr[0], rn):
+            lo, hi = interval_of(R, g.ctx, l, lv)
+            ctl = ('%s.opcode >= 8' % fv, True) in l or ('opcode >= 8', True) in l
+            if not ((ctl and lo >= 126) or lo >= (1 << 63)):
+                bad.append((lo, sorted(l)[:5]))
+        R.ob(RID, 'parse(): `%s` only for an illegal size' % U(rn.ast.exc)[:40], not bad,
+             'parse() raises %s for a frame whose length can be as small as %s (%s): legal frames - a 125-byte Ping, a large data '
+             'frame below 2**63 - are refused and everything after them is lost' % (
+                 U(rn.ast.exc)[:50], bad[0][0] if bad else '', bad[0][1] if bad else ''), func=q, node=rn.ast,
+             construct='parse raise %s' % U(rn.ast.exc)[:50])
 
 
 # ---------------------------------------------------------------------------------------------- length
